@@ -264,6 +264,17 @@ func c12(r *eng.Run) {
 			}
 		}
 	}
+	// the shared hard-number and hard-string pools (Decode must agree with Read on them too)
+	{
+		var pool [][]byte
+		for _, x := range hardNumbers() {
+			pool = append(pool, []byte(x), []byte(" "+x+","))
+		}
+		for _, x := range hardStrings() {
+			pool = append(pool, []byte(x), []byte(x[:len(x)-1]))
+		}
+		runFamily(r, "hard-numbers-and-strings", "Decode*", pool, checkDecode)
+	}
 	r.Add("evaluations", nb)
 	r.Set("boundary_literals", nb)
 	coverageReport(r, "readNull", "readBool", "appendRemainderOfString")
